@@ -517,5 +517,15 @@ PROPS["C09"]["explanation"] += " (ONEREC) each dimension record GRIupdatemeta en
 PROPS["C09"]["rules"] = PROPS["C09"]["rules"] + [rules_gr.rule_row_length_factor]
 PROPS["C09"]["explanation"] += " (ROWLEN) row indices and row steps are scaled into offsets by the row length xdim."
 
+PROPS["C03"]["rules"] = PROPS["C03"]["rules"] + [rules_sd.rule_written_buffer_is_filled]
+PROPS["C03"]["explanation"] += " (FILLBUF) the temporary buffer written as fill is, on every path, the one that last received the fill pattern (converted or not)."
+
+PROPS["C10"]["rules"] = PROPS["C10"]["rules"] + [rules_attr.rule_gr_cache_threshold]
+PROPS["C10"]["explanation"] += " (CACHETHRESH) GRgetattr discards an attribute's in-memory copy under the same size test under which GRsetattr writes a replaced value through."
+
+PROPS["C10"]["rules"] = PROPS["C10"]["rules"] + [rules_sd.rule_handle_numrecs_guarded]
+PROPS["C10"]["explanation"] += " (UNLIMSIZE2) the SD functions read the file-wide record count only for netCDF files; an unlimited dimension's scale is read with the variable's own count."
+PROPS["C03"]["rules"] = PROPS["C03"]["rules"] + [rules_sd.rule_handle_numrecs_guarded]
+
 NOT_APPLICABLE = {}
 
